@@ -170,6 +170,25 @@ static int run_symbols(uint64_t seed, long n) {
     for (uint32_t i = 0; i < (1u << 17); ++i) c.v.push_back(i);
     if (n >= 1000) forked(c, "distinct2^17");
   }
+  // forced raw scheme with wide values and thousands of distinct symbols (the histogram pass must not be skipped)
+  for (int rep = 0; rep < 2; ++rep) {
+    SymCase c; c.nc = 1; c.level = rep ? 0 : 7; c.method = 1; c.dist = "raw-wide-manyunique";
+    for (uint32_t i = 0; i < 6000; ++i) c.v.push_back((1u << 18) + i * 3 + (i % 7));
+    forked(c, "raw-wide-manyunique");
+  }
+  // tables whose normalised probabilities sit exactly on the serialisation boundaries 2^6 / 2^14 (raw scheme, >= 15 bits of precision)
+  for (int edge : {64, 16384}) {
+    SymCase c; c.nc = 1; c.level = 7; c.method = 1; c.dist = "raw-prob-boundary";
+    // 512 other symbols twice each + one dominant symbol so that its probability is edge / 2^15 .. after normalisation
+    const int others = 600;
+    const long P = 1L << 15;                      // bit length 10 -> precision 15
+    const long total = P;                         // total == precision: probabilities equal counts
+    for (int k = 0; k < others; ++k) c.v.push_back(1 + k);
+    long rest = total - others - edge;
+    for (long k = 0; k < edge; ++k) c.v.push_back(0);
+    for (long k = 0; k < rest; ++k) c.v.push_back(1 + (uint32_t)(k % others));
+    forked(c, "raw-prob-boundary");
+  }
   for (long i = 0; i < n; ++i) forked(gen_case(r, true), "random");
   return 0;
 }
@@ -253,8 +272,51 @@ static int run_steps(uint64_t seed, long n) {
 }
 
 // ------------------------------------------------------------------------------ Create
+template <int B>
+static void create_case(const std::vector<uint64_t> &f) {
+  EncoderBuffer eb;
+  RAnsSymbolEncoder<B> enc;
+  const bool ok = enc.Create(f.data(), (int)f.size(), &eb);
+  std::vector<int> fi(f.begin(), f.end()), bytes;
+  for (size_t k = 0; k < eb.size(); ++k) bytes.push_back((unsigned char)eb.data()[k]);
+  // table round trip through the real decoder
+  DecoderBuffer db;
+  db.Init(eb.data(), eb.size());
+  db.set_bitstream_version(0x0202);
+  RAnsSymbolDecoder<B> dec;
+  const bool dok = ok && dec.Create(&db);
+  out.begin("Create").i("pb", ComputeRAnsPrecisionFromUniqueSymbolsBitLength(B)).arr("freq", fi).b("ok", ok).b("dok", dok).arr("bytes", bytes).end();
+}
+static void create_dispatch(int b, const std::vector<uint64_t> &f) {
+  switch (b) {
+    case 5: create_case<5>(f); break;
+    case 10: create_case<10>(f); break;
+    case 12: create_case<12>(f); break;
+    default: create_case<14>(f); break;   // precision 20 (clamped)
+  }
+}
 static int run_create(uint64_t seed, long n) {
   vrt::Rng r(seed);
+  // (a) totals equal to the precision: the normalised probabilities are the frequencies themselves, so the serialised
+  //     table is exercised exactly at its size-class boundaries 2^6 and 2^14 (and just around them)
+  static const int bs[] = {5, 10, 12, 14};
+  for (int b : bs) {
+    const long P = 1L << ComputeRAnsPrecisionFromUniqueSymbolsBitLength(b);
+    for (long edge : {63L, 64L, 65L, 16383L, 16384L, 16385L}) {
+      if (edge + 2 > P) continue;
+      for (int variant = 0; variant < 3; ++variant) {
+        std::vector<uint64_t> f;
+        f.push_back(edge);
+        long rest = P - edge;
+        if (variant == 1) { f.push_back(0); f.push_back(0); }
+        const int others = variant == 2 ? 40 : 3;
+        for (int k = 0; k < others - 1 && rest > 1; ++k) { const long x = std::max(1L, rest / (others - k) - (k % 2)); f.push_back(x); rest -= x; }
+        f.push_back(rest);
+        create_dispatch(b, f);
+      }
+    }
+  }
+  // (b) random tables
   for (long i = 0; i < n; ++i) {
     const int ns = r.range(1, 32);
     std::vector<uint64_t> f(ns, 0);
@@ -269,12 +331,7 @@ static int run_create(uint64_t seed, long n) {
       }
     }
     if (std::all_of(f.begin(), f.end(), [](uint64_t x) { return x == 0; })) f[r.below(ns)] = 1 + r.below(9);
-    EncoderBuffer eb;
-    RAnsSymbolEncoder<5> enc;
-    const bool ok = enc.Create(f.data(), ns, &eb);
-    std::vector<int> fi(f.begin(), f.end()), bytes;
-    for (size_t k = 0; k < eb.size(); ++k) bytes.push_back((unsigned char)eb.data()[k]);
-    out.begin("Create").arr("freq", fi).b("ok", ok).arr("bytes", bytes).end();
+    create_dispatch(bs[r.range(0, 3)], f);
   }
   return 0;
 }
